@@ -445,7 +445,36 @@ impl<'t, 'd> G<'t, 'd> {
         self.p("[");
         let saved = (self.cont, self.indent);
         self.cont = 0;
-        if self.budget > 0 && d < 6 {
+        if self.budget > 0 && d < 6 && self.t.chance(24) {
+            // a block-level element on the line of the opening bracket, ending on the line of the closing one:
+            // heading / item marker, a few inline elements, optionally a `\` line break, then every kind of
+            // edge (the blank before `]` is what keeps a trailing `\` from escaping the bracket; seeded
+            // change C04-6)
+            if self.t.chance(60) {
+                self.p(" ");
+            }
+            let marker = self.t.pick(&["= ", "== ", "- ", "+ ", "1. ", "/ t: ", "= ", "=== "]);
+            self.p(marker);
+            let n = 1 + self.t.below(3);
+            for i in 0..n {
+                self.inline_elem(d + 1);
+                if i + 1 < n {
+                    self.p(" ")
+                }
+            }
+            if self.t.chance(100) {
+                self.p(" \\");
+            }
+            match self.t.weighted(&[3, 5, 2, 1]) {
+                0 => {}
+                1 => self.p(" "),
+                2 => self.p("  "),
+                _ => {
+                    self.p("\n");
+                    self.pad_markup_indent()
+                }
+            }
+        } else if self.budget > 0 && d < 6 {
             self.markup_inline_seq(d + 1, true);
         } else {
             self.p("c");
@@ -552,20 +581,36 @@ impl<'t, 'd> G<'t, 'd> {
     }
 
     fn destructuring(&mut self, d: u32) {
+        self.destructuring_with(d, false)
+    }
+
+    /// the left-hand side of a destructuring *assignment* also takes expression patterns, which Typst
+    /// parses atomically (`(a.b.c, ..d.e, k: (x.y)) = v`)
+    fn pattern_leaf(&mut self, assign: bool) {
+        const E: &[&str] = &[
+            "aaaaaaa.bbbbbbb.ccccccc", "z.draw.group", "d.at(0)", "(a.b.c)", "((x.y.z.w))", "a.b", "m.first().x", "(aaaaaaa.bbbbbbb.ccccccc)",
+            "x.at(1).y.z",
+        ];
+        if assign && self.t.chance(110) {
+            let e = self.t.pick(E);
+            self.p(e)
+        } else {
+            let i = self.ident();
+            self.p(i)
+        }
+    }
+
+    fn destructuring_with(&mut self, d: u32, assign: bool) {
         let n = 1 + self.t.below(3);
         self.list_like(
             "(",
             ")",
             |g, _| match g.t.weighted(&[8, 2, 2, 1, 1]) {
-                0 => {
-                    let i = g.ident();
-                    g.p(i)
-                }
+                0 => g.pattern_leaf(assign),
                 1 => {
                     g.p("..");
                     if g.t.coin() {
-                        let i = g.ident();
-                        g.p(i)
+                        g.pattern_leaf(assign)
                     }
                 }
                 2 => {
@@ -573,13 +618,12 @@ impl<'t, 'd> G<'t, 'd> {
                     g.p(i);
                     g.p(":");
                     g.osp();
-                    let j = g.ident();
-                    g.p(j)
+                    g.pattern_leaf(assign)
                 }
                 3 => g.p("_"),
                 _ => {
                     if d < 4 {
-                        g.destructuring(d + 1)
+                        g.destructuring_with(d + 1, assign)
                     } else {
                         g.p("z")
                     }
@@ -851,7 +895,12 @@ impl<'t, 'd> G<'t, 'd> {
             2 => {
                 self.p("set");
                 self.sp();
-                let f = self.t.pick(&["text", "par", "page", "heading", "f", "a.b", "c./**/f", "text", "par"]);
+                // targets with 0..3 dots: the target of a set rule is a path, not an expression (it cannot be
+                // parenthesised; seeded change C01-5)
+                let f = self.t.pick(&[
+                    "text", "par", "page", "heading", "f", "a.b", "c./**/f", "text", "par", "std.table.cell", "a.b.c", "pkg.theme.slide.title",
+                    "std.text",
+                ]);
                 self.p(f);
                 self.args_paren_only(d);
                 if self.t.chance(20) {
@@ -874,7 +923,8 @@ impl<'t, 'd> G<'t, 'd> {
                     }
                     2 => {
                         self.sp();
-                        self.p("heading.where(level: 1)")
+                        let f = self.t.pick(&["heading.where(level: 1)", "std.table.cell", "a.b.c", "heading.where(level: 1)"]);
+                        self.p(f)
                     }
                     _ => {
                         self.sp();
@@ -889,7 +939,8 @@ impl<'t, 'd> G<'t, 'd> {
                     1 => {
                         self.p("set");
                         self.sp();
-                        self.p("text");
+                        let f = self.t.pick(&["text", "text", "std.text", "std.table.cell", "a.b.c.d"]);
+                        self.p(f);
                         self.args_paren_only(d)
                     }
                     _ => self.expr(d + 1),
@@ -937,7 +988,7 @@ impl<'t, 'd> G<'t, 'd> {
             }
             10 => {
                 // destructuring assignment
-                self.destructuring(d);
+                self.destructuring_with(d, true);
                 self.sp();
                 self.p("=");
                 self.sp();
